@@ -26,6 +26,7 @@ pub fn prop() -> Prop {
         subs: vec![
             Sub { name: "trees", run: run_trees, replay: |j| replay_with::<M>(j, check) },
             Sub { name: "sweep", run: run_sweep, replay: |j| replay_with::<M>(j, check) },
+            Sub { name: "offsets", run: run_offsets, replay: |j| replay_with::<M>(j, check) },
             Sub { name: "numbers", run: run_numbers, replay: |j| replay_with::<M>(j, check) },
         ],
     }
@@ -205,8 +206,14 @@ pub fn check(m: &M, obs: &mut Obs) -> Result<(), String> {
         // (a) two independent strict acceptors
         let r = ref_parse(text.as_bytes(), Mode::Strict)
             .map_err(|e| format!("{name} is not RFC 8259 JSON ({e}): {text:?}\n  for document {m:?}"))?;
-        let sj: serde_json::Value =
-            serde_json::from_str(text).map_err(|e| format!("{name}: serde_json rejects the rendering ({e}): {text:?}"))?;
+        // (serde_json's default nesting limit of 128 is its own safeguard, not a rule of JSON: lifted)
+        let sj: serde_json::Value = {
+            let mut de = serde_json::Deserializer::from_str(text);
+            de.disable_recursion_limit();
+            let v = serde::Deserialize::deserialize(&mut de).map_err(|e| format!("{name}: serde_json rejects the rendering ({e}): {text:?}"))?;
+            de.end().map_err(|e| format!("{name}: serde_json rejects the rendering ({e}): {text:?}"))?;
+            v
+        };
         // (b) meaning
         if !doc_eq(&r, m) {
             return Err(format!("{name} denotes {r:?}\n  but the document is {m:?}\n  text {text:?}"));
@@ -274,6 +281,40 @@ fn run_sweep(ctx: &mut Ctx) {
     }
 }
 
+
+/// a multi-byte character (2, 3, 4 bytes; U+2028; a character that must be escaped next to one that
+/// must not) at every byte offset 0..=300 of an otherwise plain string, as a value, as a key and as
+/// a later sibling: a renderer that copies plain runs in blocks of any size up to 256 bytes cuts
+/// some of these in the middle of the character
+fn run_offsets(ctx: &mut Ctx) {
+    let chars = ["\u{e9}", "\u{20ac}", "\u{1F600}", "\u{2028}", "\u{e9}\"", "\u{1F600}\u{1f}"];
+    let mut k = 0usize;
+    for off in 0usize..=300 {
+        for c in chars {
+            k += 1;
+            if k % ctx.nworkers != ctx.worker || ctx.failure.is_some() {
+                continue;
+            }
+            for tail in [0usize, 70, 200] {
+                let s = format!("{}{c}{}", "a".repeat(off), "b".repeat(tail));
+                let mut o = BTreeMap::new();
+                o.insert(s.clone(), M::Num(N::U(1)));
+                o.insert(format!("z{s}"), M::Str(s.clone()));
+                for d in [M::Str(s.clone()), M::Arr(vec![M::Str("x".repeat(off % 7)), M::Str(s.clone()), M::Bool(true)]), M::Obj(o.clone())] {
+                    let mut obs = Obs::default();
+                    match guard(|| check(&d, &mut obs)) {
+                        Ok(Ok(())) => {
+                            obs.nontrivial = true;
+                            ctx.record(|| d.to_j(), &obs)
+                        }
+                        Ok(Err(m)) => ctx.fail("offsets", d.to_j(), m),
+                        Err(p) => ctx.fail("offsets", d.to_j(), format!("unexpected {}", p.describe())),
+                    }
+                }
+            }
+        }
+    }
+}
 
 /// number renderings on their own: f32-exact doubles on a stride through all 2^32 patterns,
 /// integer and float edges, powers of ten and two, in three positions
